@@ -215,6 +215,8 @@ def exec_image(case):
         cls.append("planetary-tiles")
     if min(W, H) < 32:
         cls.append("narrow-image")
+    if max(W, H) >= 300:
+        cls.append("large-image")
     if (ulon.max() - ulon.min()) > 2 * math.pi - 1e-6:
         cls.append("wraps-all-longitudes")
     if blon.min() < 0.2 and blon.max() > 2 * math.pi - 0.2:
@@ -335,6 +337,24 @@ def strat_image(draw, tier):
                     c = {"first": 0.5 + f, "last": N - 0.5 + f, "any": 0.5 + f + draw(st.integers(0, N - 1))}[cell]
                     case["wcs"][key] = (c - 1) / (N - 1)
             deep = True
+    grazing = (not polar) and draw(st.integers(0, 5)) == 0
+    if grazing:
+        # a LARGE image (hundreds to thousands of pixels on its long side) one of whose long edges passes a celestial pole at
+        # a distance of R pixels without containing it: the latitude extreme is the foot of the perpendicular from the pole
+        # onto that edge, somewhere between the corners
+        W = draw(st.sampled_from([300, 400, 640, 1000, 1600, 3100]))
+        Hh = draw(st.integers(40, 400))
+        R = draw(st.sampled_from([8, 20, 50, 120, 450]))
+        sc = draw(st.sampled_from([0.002, 0.01, 0.02]))
+        if (Hh / 2 + R + W / 2) * sc > 40:
+            sc = 0.002
+        long_axis_first = draw(st.booleans())
+        case["size"] = [W, Hh] if long_axis_first else [Hh, W]
+        sgn = draw(st.sampled_from([1, -1]))
+        case["wcs"].update(proj=draw(st.sampled_from(["TAN", "TAN", "STG", "ARC"])), scale=sc, ratio=1.0, skew=0.0, crpix_mode="inside",
+                           crpix_u=draw(st.floats(0.2, 0.8)) if long_axis_first else 0.5, crpix_v=0.5 if long_axis_first else draw(st.floats(0.2, 0.8)),
+                           dec=sgn * (90.0 - (Hh / 2 + R) * sc),
+                           rot=(0.0 if long_axis_first else 90.0) + draw(st.sampled_from([0.0, 180.0])) + draw(st.floats(-8, 8)))
     seam = draw(st.integers(0, 2)) > 0 if polar else draw(st.integers(0, 3)) == 0
     if seam:
         # RA = 0 on a chosen boundary point, mostly within a fraction of a side from a corner (where an unwrapping walk
@@ -353,6 +373,8 @@ def strat_image(draw, tier):
         if seam:
             kinds = kinds + ["seam"] * (len(kinds) if polar else len(kinds) // 2)
         kind = draw(st.sampled_from(kinds))
+        if grazing:
+            kind = draw(st.sampled_from(["latmax", "latmin", "latmax", "latmin", "ring"]))
         pr = {"kind": kind, "shift": draw(st.floats(0.01, 0.45)), "ratio": 2 ** (draw(st.floats(-14, -8)) if (polar and (kind == "seam" or (kind == "pole" and deep and draw(st.booleans())))) else draw(st.floats(-14 if deep else -10, 2))), "frac": draw(st.floats(0, 1)), "frac2": draw(st.floats(0, 1))}
         probes.append(pr)
     case["probes"] = probes
